@@ -6,6 +6,7 @@
    `hist O s` = the history of invocation / linearisation / response marks of that execution. *)
 Require Import PV.Base.Prelude PV.Base.F64 PV.Model.Conc PV.Model.AtomicConc PV.Proofs.AtomicConcFacts PV.Spec.SpecC01.
 From Coq Require Import Permutation Floats.
+Require PV.Model.VecConc PV.Proofs.VecConcBase PV.Proofs.VecConcFacts PV.Props.C10.
 Open Scope N_scope.
 
 (* ---- the executable validator and the step relation are the same thing *)
@@ -193,6 +194,51 @@ Example c01_run_sched :
   Nat.eqb (length es) 7 && match arun FloatOps (ainit FloatOps) es with Some s => N.eqb (f2bits (cell s)) one_bits | None => false end = true.
 Proof. vm_compute. reflexivity. Qed.
 
+(* ---- counters reached as children of a counter vector.
+   THESE ARE C10's THEOREMS (Props/C10.v, Proofs/VecConcFacts.v), about C10's model of src/vec.rs (Model/VecConc.v: RwLock word,
+   key -> child map, ONE u64 cell per child updated by one fetch_add through the handle - i.e. the child cells are C01's
+   integer cells); they are re-exported here because C01's text covers "children of counter vectors": requests for the same
+   label values get the same child (in particular racing first requests), every value a collection reads for a child is the
+   sum modulo 2^64 of ALL updates made through handles to that child before the read, and so is the content of every cell.
+   C01's check validates its `C vec` traces with C10's validator, whose soundness is the fourth statement. *)
+Module VecChild.
+Import PV.Model.VecConc PV.Proofs.VecConcBase PV.Proofs.VecConcFacts.
+Theorem c01_vec_child_same_child_on_race nl tr s L1 k c1 L2 c2 L3 : vrun (vinit nl) tr = Some s ->
+  chron s = L1 ++ (AGet k, RChild c1) :: L2 ++ (AGet k, RChild c2) :: L3 ->
+  (forall o r, In (o, r) L2 -> ~ kills k o) -> c1 = c2.
+Proof. exact (PV.Props.C10.c10_same_child_on_race nl tr s L1 k c1 L2 c2 L3). Qed.
+Theorem c01_vec_child_no_lost_update nl tr s newer tm t c v older : vrun (vinit nl) tr = Some s ->
+  g_lin s = newer ++ (tm, t, ARead c, RValue v) :: older -> v = wrap64 (upd_sum c older).
+Proof. exact (PV.Props.C10.c10_no_lost_update nl tr s newer tm t c v older). Qed.
+Theorem c01_vec_child_cell_is_sum_of_updates nl tr s c : vrun (vinit nl) tr = Some s ->
+  cell_mem c (v_cells s) = true -> cell_get c (v_cells s) = wrap64 (upd_sum c (g_lin s)).
+Proof. exact (PV.Props.C10.c10_cell_is_sum_of_updates nl tr s c). Qed.
+Theorem c01_vec_child_validated_traces_are_model_paths nl nth es :
+  vcheck nl nth es = true -> exists tr s, reach nl tr s /\ visible tr = es /\ vfinal nth s = true.
+Proof. exact (PV.Props.C10.c10_validated_traces_are_model_paths nl nth es). Qed.
+End VecChild.
+
+(* the vector spec on markers: two threads race for the same new label value, both increments show in the final collections;
+   the outcome of a vector that dropped the first child (only thread 1's increment visible) is rejected *)
+Definition vec_markers (v0 v1 : N) : list event :=
+  [ECall 0 (CWithInc [[97]] 1); ECall 1 (CWithInc [[97]] 2); ERet 0 RUnit; ERet 1 RUnit;
+   ECall 0 CVCollect; ERet 0 (RColl [([[97]], v0)]); ECall 1 CVCollect; ERet 1 (RColl [([[97]], v1)])].
+Example c01_vec_spec_accepts_and_rejects :
+  spec_c01_vec (vec_markers 3 3) = true /\ spec_c01_vec (vec_markers 2 2) = false /\ spec_c01_vec (vec_markers 3 1) = false.
+Proof. repeat split; vm_compute; reflexivity. Qed.
+(* a local amount far below f64::EPSILON (1e-17) is not zero: the model flushes it with a compare-exchange loop, the spec
+   decodes it exactly and rejects a trace in which it was dropped *)
+Definition tiny_bits : N := 0x3c670ef54646d497.
+Definition tiny_trace : list event :=
+  [ECall 0 (CFlush tiny_bits); EAt 0 0 KLoad Acquire None 0 0 true; EAt 0 0 KCasWeak Release (Some Relaxed) 0 tiny_bits true; ERet 0 RUnit;
+   ECall 1 CGet; EAt 1 0 KLoad Relaxed None tiny_bits tiny_bits true; ERet 1 (RVal tiny_bits)].
+Definition tiny_dropped_trace : list event :=
+  [ECall 0 (CFlush tiny_bits); ERet 0 RUnit; ECall 1 CGet; EAt 1 0 KLoad Relaxed None 0 0 true; ERet 1 (RVal 0)].
+Example c01_tiny_flush_not_skipped :
+  trace_ok FloatOps tiny_trace = true /\ spec_c01 true tiny_trace = true /\
+  first_reject (FlFloat, tiny_dropped_trace) = Some 1 /\ spec_c01 true tiny_dropped_trace = false.
+Proof. repeat split; vm_compute; reflexivity. Qed.
+
 Check c01_int_lin : forall es s, reachable IntOps es s ->
   let h := hist IntOps s in
   proj_hist h = proj_ev IntOps es /\ hist_wf h /\ spec_run IntOps 0 (lin_calls h) = Some (cell s, lin_rets h).
@@ -241,3 +287,9 @@ Print Assumptions c01_window_trace_spec.
 Print Assumptions c01_lost_update_rejected.
 Print Assumptions c01_int_trace_valid.
 Print Assumptions c01_run_sched.
+Print Assumptions VecChild.c01_vec_child_same_child_on_race.
+Print Assumptions VecChild.c01_vec_child_no_lost_update.
+Print Assumptions VecChild.c01_vec_child_cell_is_sum_of_updates.
+Print Assumptions VecChild.c01_vec_child_validated_traces_are_model_paths.
+Print Assumptions c01_vec_spec_accepts_and_rejects.
+Print Assumptions c01_tiny_flush_not_skipped.
